@@ -21,6 +21,7 @@ type solver struct {
 	log      *os.File
 	gen      int
 	declared map[string]bool
+	names    map[string]string // harness variable name/width -> SMT symbol
 	nQueries int
 }
 
@@ -41,7 +42,7 @@ func newSolver() *solver {
 	if err := cmd.Start(); err != nil {
 		panic(engineAbort{kind: "engine", msg: "cannot start solver: " + err.Error()})
 	}
-	s := &solver{cmd: cmd, inc: in, in: bufio.NewWriterSize(in, 1<<16), out: bufio.NewReaderSize(out, 1<<16), gen: solverGen, declared: map[string]bool{}}
+	s := &solver{cmd: cmd, inc: in, in: bufio.NewWriterSize(in, 1<<16), out: bufio.NewReaderSize(out, 1<<16), gen: solverGen, declared: map[string]bool{}, names: map[string]string{}}
 	if SMTLogPath != "" {
 		s.log, _ = os.OpenFile(SMTLogPath, os.O_CREATE|os.O_WRONLY|os.O_TRUNC, 0644)
 	}
@@ -83,6 +84,24 @@ func (s *solver) line() string {
 	return strings.TrimSpace(l)
 }
 
+// smtName declares a variable on first use. Declarations persist for the life of the solver process
+// (global-declarations), across jobs: when a later job uses the same harness variable name with another
+// width (IntRange encodes small ranges in 8 bits), it gets its own SMT symbol.
+func (s *solver) smtName(e *expr) string {
+	key := fmt.Sprintf("%s/%d", e.name, e.w)
+	if n, ok := s.names[key]; ok {
+		return n
+	}
+	n := e.name
+	if s.declared[n] {
+		n = fmt.Sprintf("%s!w%d", e.name, e.w)
+	}
+	s.declared[n] = true
+	s.names[key] = n
+	s.send(fmt.Sprintf("(declare-const %s %s)", n, sortName(e.w)))
+	return n
+}
+
 // ref returns SMT text for e, defining names for large shared sub-terms first.
 func (s *solver) ref(e *expr) string {
 	if e.gen == s.gen && e.smt != "" {
@@ -91,11 +110,7 @@ func (s *solver) ref(e *expr) string {
 	var r string
 	switch e.op {
 	case "var":
-		if !s.declared[e.name] {
-			s.declared[e.name] = true
-			s.send(fmt.Sprintf("(declare-const %s %s)", e.name, sortName(e.w)))
-		}
-		r = e.name
+		r = s.smtName(e)
 	case "const":
 		r = fmt.Sprintf("(_ bv%d %d)", e.c, e.w)
 	case "true", "false":
@@ -169,7 +184,7 @@ func (s *solver) check(extra *expr, vars []*expr) (satResult, map[string]uint64)
 			var sb strings.Builder
 			sb.WriteString("(get-value (")
 			for _, v := range vars {
-				sb.WriteString(v.name)
+				sb.WriteString(s.smtName(v))
 				sb.WriteByte(' ')
 			}
 			sb.WriteString("))")
@@ -194,6 +209,9 @@ func (s *solver) check(extra *expr, vars []*expr) (satResult, map[string]uint64)
 			for i := 0; i+1 < len(f); i += 2 {
 				v := f[i+1]
 				name := f[i]
+				if k := strings.Index(name, "!w"); k > 0 {
+					name = name[:k] // same harness variable declared earlier in this solver with another width
+				}
 				var n uint64
 				switch {
 				case strings.HasPrefix(v, "#x"):
